@@ -31,12 +31,12 @@ package ro
 //@ func ShareWithConfig$1$2
 //@   note reset(currentSubject, currentSourceSubscription): called with mu held by its callers
 //@   type shareEnv
-//@   props C11
+//@   props C11 C14
 //@   holding mu
 //@   track currentSourceSubscription.*
 //@   ensures [releases-the-upstream-of-that-generation|C11] trace(currentSourceSubscription.Unsubscribe())
 //@   ensures [clears-only-the-current-generation|C11] subject == ite(currentSubject == old(subject), nil, old(subject))
-//@   ensures [leaves-the-count-alone|C11] refCount == old(refCount)
+//@   ensures [leaves-the-count-alone|C11,C14] refCount == old(refCount)
 
 //@ func ShareWithConfig$1$3$3
 //@   note the teardown of one subscriber
